@@ -1,4 +1,5 @@
 """C06 — a derived array behaves exactly like a freshly built equal array: two-step selection chains through lazy views."""
+import vlib
 from vlib import show, parse, oracle, parse2, guarded
 from harness.c02 import enc_index
 
@@ -224,3 +225,7 @@ def run(R, tier, rng):
     _run_chains(R, tier, rng)
     run_programs(R, tier, rng)
 RULE = RULE + " || " + OBS_RULE
+
+
+def translator_tie():
+    return vlib.translator_tie(["view"])
